@@ -92,3 +92,115 @@ theorem stripQuotes_quoteText (s : List Char) : stripQuotes (quoteText s) = dbl 
   exact List.dropLast_concat
 
 end Pycel.Formula
+
+namespace Pycel.Formula
+
+/-! ## what may follow an emitted expression -/
+
+/-- end of input, `)` or `,` -/
+def closeNext : List PyTok → Prop
+  | [] => True
+  | .rpar :: _ => True
+  | .comma :: _ => True
+  | _ => False
+
+/-- end of input, `)`, `,` or an operator -/
+def okNext : List PyTok → Prop
+  | [] => True
+  | .rpar :: _ => True
+  | .comma :: _ => True
+  | .op _ :: _ => True
+  | _ => False
+
+/-- the loop at level `min` stops in front of `rest` -/
+def stops (min : Nat) : List PyTok → Prop
+  | .op o :: _ => o.level < min
+  | _ => True
+
+theorem closeNext_ok {r : List PyTok} (h : closeNext r) : okNext r := by
+  cases r with
+  | nil => trivial
+  | cons t r => cases t <;> simp_all [closeNext, okNext]
+
+theorem closeNext_stops {r : List PyTok} (h : closeNext r) (m : Nat) : stops m r := by
+  cases r with
+  | nil => trivial
+  | cons t r => cases t <;> simp_all [closeNext, stops]
+
+theorem stops_mono {m k : Nat} (h : m ≤ k) {r : List PyTok} (hs : stops m r) : stops k r := by
+  cases r with
+  | nil => trivial
+  | cons t r => cases t <;> simp_all [stops]; omega
+
+theorem pLoop_stop (n min : Nat) (x : PyExpr) {r : List PyTok} (ho : okNext r) (hs : stops min r) :
+    pLoop (n + 1) min x r = some (x, r) := by
+  cases r with
+  | nil => simp [pLoop]
+  | cons t r =>
+    cases t with
+    | op o => simp only [stops] at hs; simp [pLoop, hs]
+    | _ => simp [pLoop]
+
+theorem pExpr_sub (n min : Nat) (rest : List PyTok) :
+    pExpr (n + 1) min (.op .sub :: rest) = (pExpr n 4 rest).bind fun (x, r) => pLoop n min (.neg x) r := by
+  simp [pExpr]
+
+theorem pExpr_prim (n min : Nat) (t : PyTok) (h : t ≠ .op .sub) (rest : List PyTok) :
+    pExpr (n + 1) min (t :: rest) = (pPrimary n (t :: rest)).bind fun (x, r) => pLoop n min x r := by
+  cases t with
+  | op o => cases o <;> simp_all [pExpr]
+  | _ => simp [pExpr]
+
+/-! ## emittable trees -/
+
+def InOp.arith : InOp → Bool
+  | .colon | .space | .comma => false
+  | _ => true
+
+def Operand.emittable : Operand → Prop
+  | .number t => (pyNumValue? (emitNumber true t)).isSome = true
+  | .text raw => ∃ s, raw = quoteText s
+  | .range t => pyUnescape (t.filter (· ≠ '$')) = some (t.filter (· ≠ '$'))
+  | _ => True
+
+def plainFn (name : List Char) : Prop :=
+  pyFuncBase name ≠ ['a', 'r', 'r', 'a', 'y'] ∧ pyFuncBase name ≠ ['a', 'r', 'r', 'a', 'y', 'r', 'o', 'w']
+
+mutual
+/-- trees inside the scope of `C02_emit`: arithmetic / comparison operators, plain function calls, literals that
+    are tokens the tokenizer can produce -/
+def Expr.emittable : Expr → Prop
+  | .operand o => o.emittable
+  | .neg e => e.emittable
+  | .pct e => e.emittable
+  | .bin op l r => op.arith = true ∧ l.emittable ∧ r.emittable
+  | .func name args => plainFn name ∧ emittableList args
+def emittableList : List Expr → Prop
+  | [] => True
+  | e :: es => e.emittable ∧ emittableList es
+end
+
+/-- the emitted tokens without regard to the parent -/
+abbrev I (e : Expr) : List PyTok := emitE true .root e
+
+/-- does the node get parentheses under an operator parent (`powLeft` = it is the left operand of `^`) -/
+def parenUnder : Expr → Bool → Bool
+  | .neg _, b => b
+  | .pct _, _ => true
+  | .bin _ _ _, _ => true
+  | _, _ => false
+
+theorem emitE_funcArg (e : Expr) : emitE true .funcArg e = I e := by
+  cases e <;> simp [emitE, I, wrap, Ctx.isOp]
+  all_goals (try split) <;> simp [wrap, Ctx.isOp]
+
+theorem emitE_op (e : Expr) (b : Bool) :
+    emitE true (.opChild b) e = if parenUnder e b then .lpar :: I e ++ [.rpar] else I e := by
+  cases e with
+  | operand o => simp [emitE, I, parenUnder]
+  | func name args => simp [emitE, I, parenUnder]
+  | neg e => cases b <;> simp [emitE, I, parenUnder]
+  | pct e => simp [emitE, I, parenUnder, wrap, Ctx.isOp]
+  | bin op l r => cases op <;> simp [emitE, I, parenUnder, wrap, Ctx.isOp]
+
+end Pycel.Formula
